@@ -1,6 +1,6 @@
 #!/usr/bin/env python3
 """verus_all.py: run every Verus unit once (smoke test after an engine or template change); prints the units that are not verified
-(v_scanner_offset is expected to fail: known finding F16)."""
+(every unit must verify)."""
 import os, sys
 sys.path.insert(0, os.path.dirname(os.path.abspath(__file__)))
 import verus_engine as v
@@ -9,4 +9,4 @@ bad = [(x["id"], x["status"], (x.get("note") or "")[-300:]) for x in r["units"] 
 print(len(r["units"]), "units;", len(bad), "not verified")
 for b in bad:
     print(" ", b)
-sys.exit(0 if all(b[0] == "v_scanner_offset" for b in bad) else 1)
+sys.exit(0 if not bad else 1)
